@@ -583,6 +583,14 @@ def run(ctx):
         ctx.violation({"broken": "machinery", "stage": "T1 seq_stage", "error": repr(ex)}, "the T1 stage crashed; nothing is shown to hold",
                       name="t1_crash.json", no_failing_input=True)
     seq_rule = ctx.coverage.get("rule", "")
+    # T2 layer 2: the closer (flag; network stop; timers; manager) as a thread against in-flight requests, on the real stack
+    try:
+        from lib import svtie
+        svtie.run_property(ctx, "C11")
+    except Exception as ex:  # noqa
+        ctx.note("T2-svsched stage crashed: %r" % (ex,))
+        ctx.violation({"broken": "machinery", "stage": "T2 svsched", "error": repr(ex)}, "the T2 layer-2 stage crashed; nothing is shown to hold",
+                      name="t2sv_crash.json", no_failing_input=True)
     t4_stage(ctx)
     ctx.coverage["rule"] = (("T1: " + seq_rule + ". ") if seq_rule else "") + T4_RULE
     if not ok and not ctx.violations:
